@@ -758,7 +758,15 @@ fn analyze_match_tuple_pattern(
                     super::narrowing::get_field_narrowing(scopes, value_provenance, *actual_idx)
             {
                 // Intersect with the narrowed type
+                let full_field_type_id = field_type_id;
                 field_type_id = intersect_types(field_type_id, narrowed_id, program);
+                // The surviving variants of a recursive union still say "the enclosing union" by
+                // `Cycle(1)`; the nested analysis resolves that against the type it is handed —
+                // the NARROWED one — so the dropped variants would be lost one level down as well
+                // (`=[Nil, a]` failed, so the list is a `Cons`, and its TAIL would be a `Cons`
+                // too: `=[Cons[h, Nil], a]` could never match). Point the back-references at the
+                // un-narrowed field type instead.
+                field_type_id = unroll_back_references(field_type_id, full_field_type_id, program);
             }
 
             // Recursively analyze the field pattern
@@ -832,6 +840,98 @@ fn analyze_match_tuple_pattern(
     };
 
     Ok((binding_sets, narrowed_type_id))
+}
+
+/// `narrowed_id` is what narrowing left of `full_id`. If `full_id` is a recursive union, the variants
+/// that survived refer back to it by `Cycle(1)` — a reference that is only right *inside* that
+/// union. Rebuild them with the back-references replaced by `full_id` itself (one unrolling step:
+/// `Cons['t, ^]` out of `Nil | Cons['t, ^]` becomes `Cons['t, (Nil | Cons['t, ^])]`).
+fn unroll_back_references(narrowed_id: usize, full_id: usize, program: &mut Program) -> usize {
+    if narrowed_id == full_id || !is_union(full_id, program) {
+        return narrowed_id;
+    }
+    match program.lookup_type(narrowed_id).cloned() {
+        // still a union: its variants sit one boundary down
+        Some(Type::Union(variants)) => {
+            let unrolled: Vec<usize> = variants
+                .iter()
+                .map(|&variant| replace_back_reference(variant, 1, full_id, program))
+                .collect();
+            if unrolled == variants {
+                narrowed_id
+            } else {
+                union_type_ids(program, unrolled)
+            }
+        }
+        Some(_) => replace_back_reference(narrowed_id, 1, full_id, program),
+        None => narrowed_id,
+    }
+}
+
+/// Replace `Cycle(depth)` by `full_id` throughout `type_id`. Tuple and partial fields stay at the
+/// same depth, a nested union is one boundary further away. Function and process types are left
+/// alone (as everywhere in the structural narrowing).
+fn replace_back_reference(
+    type_id: usize,
+    depth: usize,
+    full_id: usize,
+    program: &mut Program,
+) -> usize {
+    match program.lookup_type(type_id).cloned() {
+        Some(Type::Cycle(d)) if d == depth => full_id,
+        Some(Type::Tuple(tuple_id)) => {
+            let Some(info) = program.lookup_tuple(tuple_id).cloned() else {
+                return type_id;
+            };
+            let fields: Vec<(Option<String>, usize)> = info
+                .fields
+                .iter()
+                .map(|(label, field)| {
+                    (
+                        label.clone(),
+                        replace_back_reference(*field, depth, full_id, program),
+                    )
+                })
+                .collect();
+            if fields == info.fields {
+                type_id
+            } else {
+                let rebuilt = program.register_tuple(info.name.clone(), fields);
+                program.register_type(Type::Tuple(rebuilt))
+            }
+        }
+        Some(Type::Partial { name, fields }) => {
+            let rebuilt: Vec<(String, usize)> = fields
+                .iter()
+                .map(|(label, field)| {
+                    (
+                        label.clone(),
+                        replace_back_reference(*field, depth, full_id, program),
+                    )
+                })
+                .collect();
+            if rebuilt == fields {
+                type_id
+            } else {
+                program.register_type(Type::Partial {
+                    name,
+                    fields: rebuilt,
+                })
+            }
+        }
+        Some(Type::Union(variants)) => {
+            let rebuilt: Vec<usize> = variants
+                .iter()
+                .map(|&variant| replace_back_reference(variant, depth + 1, full_id, program))
+                .collect();
+            if rebuilt == variants {
+                type_id
+            } else {
+                program.register_type(Type::Union(rebuilt))
+            }
+        }
+        _ => type_id,
+    }
 }
 
 fn find_matching_match_tuples(
